@@ -1,4 +1,5 @@
 import Shisui.Offer
+import Shisui.OfferLifecycle
 import Shisui.Bitlist
 import Shisui.Framing
 /-! # C09 — OFFER gets one verdict per key and accepted content arrives intact under its key
@@ -56,6 +57,32 @@ theorem v0_ratelimited_witness :
 example : (handleOffer false 1 { inRange := fun k => k != 3, stored := fun k => k == 2, inflight := fun k => k == 4, queueFull := false }
     true 9 [1, 2, 3, 4]).verdicts = [.accepted, .alreadyStored, .notWithinRadius, .inProgress] := by decide
 
+/-! ## "not (in version 1) already being received", over every history of offers and transfer ends (`Ofl`) -/
+
+/-- over every sequence of offers and transfer ends, no key is ever being received by two transfers at once -/
+theorem never_received_twice (es : List Ofl.Ev) : Ofl.Inv (Ofl.run {} es).1 := Ofl.run_inv {} es Ofl.Inv_init
+
+/-- a key that an unfinished transfer is waiting for gets the verdict "in progress" from every further offer -/
+theorem pending_key_declined (s : Ofl.St) (i : Nat) (w : List Nat) (k : Nat) (hw : s.waiting[i]? = some w) (hk : k ∈ w) :
+    verdictV1 (Ofl.env s) k = .inProgress := Ofl.pending_key_declined s i w k hw hk
+
+/-- the end of one transfer clears nothing that another transfer is waiting for -/
+theorem finish_keeps_others (s : Ofl.St) (n j : Nat) (hne : j ≠ n) :
+    (Ofl.step s (.finish n)).1.waiting[j]? = s.waiting[j]? := Ofl.finish_keeps_others s n j hne
+
+/-- an accepted key was not being received before, and is from the reply on -/
+theorem accepted_becomes_inflight (s : Ofl.St) (keys : List Nat) (k : Nat)
+    (h : k ∈ (handleOffer false 1 (Ofl.env s) true 7 keys).waitingFor) :
+    Ofl.inflight s k = false ∧ Ofl.inflight (Ofl.step s (.offer keys)).1 k = true := Ofl.accepted_becomes_inflight s keys k h
+
+/-- the history of the seeded change C09c: A = {1,2} pending, B = {2,3} ends, C = {2} must still be declined -/
+example : (Ofl.run {} [.offer [1, 2], .offer [2, 3], .finish 1, .offer [2]]).2 =
+    [[.accepted, .accepted], [.inProgress, .accepted], [], [.inProgress]] := by decide
+
+#print axioms never_received_twice
+#print axioms pending_key_declined
+#print axioms finish_keeps_others
+#print axioms accepted_becomes_inflight
 #print axioms verdict_count
 #print axioms accepted_only_if
 #print axioms connid_iff
